@@ -269,6 +269,12 @@ class Project:
                            if isinstance(st, (ast.For, ast.While, ast.With))
                            or (isinstance(st, ast.Expr) and isinstance(st.value, ast.Call))
                            or (isinstance(st, ast.If) and not all(isinstance(x, (ast.Import, ast.ImportFrom, ast.Pass)) for x in ast.walk(st) if isinstance(x, ast.stmt) and x is not st))]
+        # module-level functions wrapped by decorators of the project (registries filled at import time: `@register(...)`): their decoration
+        # is an import-time statement with effects
+        known_heads = ("staticmethod", "classmethod", "property", "abc.abstractmethod", "abstractmethod", "nb.njit", "numba.njit", "njit", "functools.lru_cache", "functools.cache",
+                       "lru_cache", "cache", "contextlib.contextmanager", "contextmanager", "functools.cached_property", "cached_property", "functools.wraps", "dataclasses.dataclass", "dataclass")
+        m.registrations = [st for st in m.tree.body if isinstance(st, (ast.FunctionDef, ast.AsyncFunctionDef))
+                           and any(ast.unparse(d).split("(")[0] not in known_heads for d in st.decorator_list)]
         for stmt in m.tree.body:
             if isinstance(stmt, (ast.Import, ast.ImportFrom)):
                 add_imports(stmt)
